@@ -273,6 +273,24 @@ func genList(r *Rand, n int, thorough bool, emit func(string)) {
 				}
 			}
 		}
+		if r.Chance(1, 10) {
+			// keys whose directory and basename only differ in where the separator (or a dot)
+			// stands: D/<frame><ext> next to D<frame><ext>, and .<frame><ext> next to <frame><ext>
+			D := r.Pick([]string{"beauty", "/shots/plates", "x/y", "a"})
+			e0 := r.Pick([]string{".exr", ".jpg", ""})
+			w := r.Range(1, 4)
+			for j := r.Range(1, 3); j > 0; j-- {
+				v := r.Range(1, 99)
+				for _, nm := range []string{
+					fmt.Sprintf("%s/%0*d%s", D, w, v, e0), fmt.Sprintf("%s%0*d%s", D, w, v+100, e0),
+					fmt.Sprintf("%s/.%0*d%s", D, w, v+200, e0)} {
+					if c := filepath.Clean(nm); !seen[c] && r.Chance(3, 4) {
+						seen[c] = true
+						ps = append(ps, nm)
+					}
+				}
+			}
+		}
 		// shuffle
 		for a := len(ps) - 1; a > 0; a-- {
 			b := r.Intn(a + 1)
